@@ -246,7 +246,7 @@ private:
     void read_rle_data( const View_Dst& view )
     {
         targa_depth::type bytes_per_pixel = this->_info._bits_per_pixel / 8;
-        size_t image_size = this->_info._width * this->_info._height * bytes_per_pixel;
+        size_t image_size = static_cast< size_t >( this->_info._width ) * this->_info._height * bytes_per_pixel;
         byte_vector_t image_data( image_size );
 
         this->_io_dev.seek( static_cast< long >( this->_info._offset ));
@@ -264,6 +264,10 @@ private:
                     pixel_data[channel] = this->_io_dev.read_uint8();
                 }
 
+                io_error_if( chunk_length > ( image_size - pixel ) / bytes_per_pixel
+                           , "Run-length packet exceeds the image in targa file."
+                           );
+
                 // Repeat the next pixel chunk_length times
                 for( uint8_t i = 0; i < chunk_length; ++i, pixel += bytes_per_pixel )
                 {
@@ -276,6 +280,11 @@ private:
 
                 // Write the next chunk_length pixels directly
                 size_t pixels_written = chunk_length * bytes_per_pixel;
+
+                io_error_if( pixels_written > image_size - pixel
+                           , "Raw packet exceeds the image in targa file."
+                           );
+
                 this->_io_dev.read_exact( &image_data[pixel], pixels_written );
                 pixel += pixels_written;
             }
